@@ -308,3 +308,41 @@ func verifHarness_C18_valid() {
 	verifAssert(g.G0 == [2]byte{0xA5, 0x5A} && g.G1 == [2]byte{0xA5, 0x5A}, "C18:guards-intact")
 	verifReach("end")
 }
+
+// ---------------------------------------------------------------- C12 (timezone cache)
+
+// Parsing a timestamp with an arbitrary numeric zone offset touches the
+// shared timezone cache only under its lock, whether or not that zone is
+// already cached, and returns what it returns alone.
+func verifHarness_C12_parse_timezone() {
+	if verifChoice("zone-already-cached", 2) == 1 {
+		getTimezone(3600)
+	}
+	var s []byte
+	s = append(s, "2006-01-02T15:04:05"...)
+	neg := verifChoice("sign", 2) == 1
+	if neg {
+		s = append(s, '-')
+	} else {
+		s = append(s, '+')
+	}
+	var zh, zm []int
+	s, zh = verifDigits(s, "zh", 2)
+	s = append(s, ':')
+	s, zm = verifDigits(s, "zm", 2)
+	verifAssume(verifAnd(zh[0]*10+zh[1] <= 23, zm[0]*10+zm[1] <= 59))
+	off := (zh[0]*10+zh[1])*60*60 + (zm[0]*10+zm[1])*60
+	if neg {
+		off = -off
+	}
+	in := string(s)
+	verifMonitor(true)
+	t, err := parseTime(in)
+	verifMonitor(false)
+	verifAssert(err == nil, "C12:parse-ok")
+	if err == nil {
+		_, goff := t.Zone()
+		verifAssert(goff == off, "C12:parse-result-as-when-running-alone")
+	}
+	verifReach("end")
+}
